@@ -221,6 +221,8 @@ InvConvergence == (done /\ ~HasKv) => \A w \in Widths : Out2(w) = Out(w)
 (* reachability probe (must be VIOLATED: bin/selftest): some chain is laid out broken at its dots *)
 ProbeNeverBroken == done => \A w \in Widths : \A i \in 1..Len(Out(w)) : LTrimPosS(Out(w)[i], 1) > Len(Out(w)[i]) \/ SubSeq(Out(w)[i], LTrimPosS(Out(w)[i], 1), LTrimPosS(Out(w)[i], 1)) # "."
 
+AsFoundF27 == {"F27"}       \* cfg: CONSTANT AsFoundChain <- AsFoundF27 (bin/selftest)
+
 Gen == (done /\ GenOn) => PrintT(<<"GEN", ToJson([inst |-> "dotchain", unit |-> Unit,
                                                  seq |-> [i \in 1..Len(seq) |-> IF seq[i].e = "args" THEN [e |-> "args", txt |-> seq[i].txt] ELSE seq[i]],
                                                  pred |-> [w \in Widths |-> Out(w)]])>>)
